@@ -77,6 +77,7 @@ type Chan struct {
 	cap    int
 	closed bool
 	elem   types.Type
+	sent, recvd int // under the scheduler: rendezvous bookkeeping of an unbuffered channel
 }
 
 type mapIter struct {
